@@ -74,6 +74,11 @@ def make_config(base, chip, nfans, curve, api_port, stats_port, file_fans=1, nev
                   "      getRpm:", "        exec: /bin/cat", f"        args: [\"{base}/cmdfan_rpm\"]",
                   f"    neverStop: {'true' if never_stop else 'false'}", "    curve: cx"]
     lines += ["sensors:", "  - id: s1", "    hwmon:", "      platform: fakechip", "      index: 1"]
+    # two more sensors that no curve uses: they are monitored and scraped all the same, and they fail TOGETHER for a
+    # moment near the end of the run (seed C20j: the scrape collected the ids of failed sensors from several goroutines)
+    for k in (1, 2):
+        open(os.path.join(base, f"sx{k}_input"), "w").write("40000\n")
+        lines += [f"  - id: sx{k}", "    file:", f"      path: {base}/sx{k}_input"]
     if extras:
         lines += ["  - id: s2", "    file:", f"      path: {base}/s2_input",
                   "  - id: s3", "    cmd:", "      exec: /bin/cat", f"      args: [\"{base}/s3_input\"]"]
@@ -318,6 +323,12 @@ def _wiggle(stop, chip, base, nfans, file_fans, seed, fault_at):
                 faulted = True
                 _put(os.path.join(chip, "temp1_input"), "x\n")
                 time.sleep(0.05)
+            # the two unused sensors fail TOGETHER for ~0.15 s about once a second, all through the run (the daemon may be
+            # gone before the end: the known concurrent-map abort)
+            if os.path.exists(os.path.join(base, "sx1_input")):
+                bad = (time.time() % 1.1) < 0.15
+                for k in (1, 2):
+                    _put(os.path.join(base, f"sx{k}_input"), "x\n" if bad else "%d\n" % rnd.randrange(30000, 60000))
             _put(os.path.join(chip, "temp1_input"), "%d\n" % rnd.randrange(25000, 90000))
             i = rnd.randrange(1, nfans + 1)
             _put(os.path.join(chip, f"fan{i}_input"), "%d\n" % rnd.choice([0, 0, 300, 1000, 2500]))
